@@ -157,23 +157,39 @@ func (f *fixture) grantProbe(r opfix.Router, q request, grant string) *opfix.Res
 	return f.do(r, q, http.MethodPost, f.probePath(r, iToken), form, []string{"web", "web-secret"})
 }
 
-// requestObject builds an RS256 request object signed with the key registered for the client.
-func requestObject(client, audience string) string {
-	return signedJWT(map[string]any{"iss": client, "aud": []string{audience}, "client_id": client, "response_type": "code",
-		"state": "from-object", "iat": time.Now().Unix(), "exp": time.Now().Add(time.Hour).Unix()})
-}
+// placements of the authorization parameters (C19_Discovery.ro_placement)
+var placements = []string{"PBoth", "PRedirectInner", "PStateInner", "PScopeInner", "PResponseTypeInner"}
 
-// requestObjectProbe: 0 honoured (the stored request carries the object's state), 1 request_not_supported, 2 anything else, 3 panic.
-func (f *fixture) requestObjectProbe(r opfix.Router, q request, k clientKind, audience string) int {
+// requestObjectProbe sends an authorization request of client k with a request object signed with its
+// registered key; placement says which parameter lives only inside the object.
+// 0 honoured (the stored request carries the object's state, the redirect URI and the openid scope),
+// 1 request_not_supported, 2 anything else, 3 panic.
+func (f *fixture) requestObjectProbe(r opfix.Router, q request, k clientKind, placement, audience string) int {
 	aq := url.Values{"client_id": {k.id}, "redirect_uri": {k.redirect}, "response_type": {"code"}, "scope": {"openid"},
-		"state": {"outer"}, "request": {requestObject(k.id, audience)}}
+		"state": {"outer"}, "nonce": {"outer-nonce"}}
+	claims := map[string]any{"iss": k.id, "aud": []string{audience}, "client_id": k.id, "response_type": "code",
+		"redirect_uri": k.redirect, "scope": "openid", "state": "from-object", "nonce": "object-nonce",
+		"iat": time.Now().Unix(), "exp": time.Now().Add(time.Hour).Unix()}
+	switch placement {
+	case "PRedirectInner":
+		aq.Del("redirect_uri")
+	case "PStateInner":
+		aq.Del("state")
+		aq.Del("nonce")
+	case "PScopeInner":
+		aq.Del("scope")
+	case "PResponseTypeInner":
+		aq.Del("response_type")
+	}
+	aq.Set("request", signedJWT(claims))
 	ar := f.do(r, q, http.MethodGet, f.probePath(r, iAuth), aq, nil)
 	if ar.Panic != "" {
 		return 3
 	}
 	if ar.Status == http.StatusFound && ar.Location != nil {
 		if id := ar.Location.Query().Get("authRequestID"); id != "" {
-			if a, ok := f.store.AuthReqs[id]; ok && a.State == "from-object" {
+			a, ok := f.store.AuthReqs[id]
+			if ok && a.State == "from-object" && a.RedirectURI == k.redirect && len(a.Scopes) == 1 && a.Scopes[0] == "openid" {
 				return 0
 			}
 			return 2
